@@ -623,4 +623,6 @@ def run(ctx):
                        'fit() is evaluated on model sample grids and the interpolation nodes compared with the periodic tiling; E_gsf routing, period reduction and edge blending are evaluated with a symbolic interpolant; '
                        'every Peierls-Nabarro energy term is evaluated on a symbolic five-point profile and compared with its documented formula; the optimiser wiring of solve() is evaluated with a recording minimiser; '
                        'the arctangent pair is differentiated by the CAS. Not decided: interpolation accuracy, energy decrease under minimisation, the classical half-width.')
-    ctx.run_rules([gamma_set, gamma_conv, gamma_fit, gamma_egsf, pn_terms, pn_solve, arctan, grids, api])
+    # "accepts a position given in fractional, Cartesian or plotting coordinates interchangeably": every coordinate parameter is array-like (lists and tuples included)
+    from .. import lints
+    ctx.run_rules([gamma_set, gamma_conv, gamma_fit, gamma_egsf, pn_terms, pn_solve, arctan, grids, api, lambda c: lints.arraylike(c, 'ARRAY-LIKE', GS, floor=40)])
